@@ -60,6 +60,10 @@ DESCR = {
     "C08-m4": ("ang2dir multiplies the sines over all directions (axis dropped)", "angles=, 3-D, >= 2 directions, one not horizontal", "C08 ang2dir job added after the miss"),
     "C09-m3": ("common mask of stacked fields uses any instead of all", ">= 2 masked fields with different masks", "caught by C08 (mixed per-field masks)"),
     "C09-m4": ("field pre-processing (incl. normaliser fit) moved before the sub-sampling", "fit_normalizer=True with sampling_size below the point count", "C09 obligation 'pre-processing is handed the sub-sample' added after the miss"),
+    "C03-m3": ("_get_iso_rad projects onto the transposed main axes (rotation the wrong way)", "angles != 0 and anis != 1 together, dim 2-3; shows in vario_spatial / cov_spatial / cor_spatial", "NOT CAUGHT in the time available: C03 has no obligation on the *_spatial functions; C12's model job, which owns _get_iso_rad, expected a single path, was generalised to several paths, and then did not finish on the patched tree (inconclusive) before the session ended"),
+    "C03-m4": ("percentile scale divides the variogram by the sill without removing the nugget", "nugget > 0", ""),
+    "C17-m3": ("anisotropy scales the period instead of the wave-number spacing", "anisotropic model with 1/anis^2 not an integer", ""),
+    "C17-m4": ("period setter rescales the mode mesh with the inverted factor", "period changed after construction, alone", ""),
     "C20-m1": ("asarray instead of array before in-place detrending", "check_shape=False path with float input", ""),
     "C20-m2": ("bin edges converted to radians in place", "latlon, caller's float array", ""),
 }
